@@ -229,6 +229,15 @@ def vary_note(rng, j, field):
         v['oct'] = other(rng, j['oct'], OCTS)
     elif field == 'dur':
         v['dur'] = other(rng, j['dur'], ['1', '1/2', '2', '3/2', '1/3', '7/9', '1/4', '0', '4'])
+        if rng.random() < 0.35:
+            # a legal duration closer than the 1/1000 resolution to the original one (1/3 vs 333/1000 or 167/500): still a
+            # different duration (seed C20-8 compared durations with a tolerance, which breaks transitivity and the hash)
+            d = Fraction(j['dur'])
+            near = [q for q in (Fraction(k, 1000) for k in (int(d * 1000) - 1, int(d * 1000), int(d * 1000) + 1, int(d * 1000) + 2))
+                    if q > 0 and 0 < abs(q - d) < Fraction(1, 1000)]
+            near += [q for q in (Fraction(k, 500) for k in (int(d * 500), int(d * 500) + 1)) if q > 0 and 0 < abs(q - d) < Fraction(1, 1000)]
+            if near:
+                v['dur'] = frac_str(rng.choice(near))
     elif field == 'mode':
         v['mode'] = other(rng, j['mode'], MODES + [None])
     elif field == 'acc':
